@@ -3,6 +3,15 @@
 #include "util/MiscUtilityFunctions.h"
 #include "system/GlobalMemoryAllocator.h"
 
+#if defined(MUSCLE_VERIF_HOOKS) && defined(__SANITIZE_ADDRESS__)
+# include <sanitizer/asan_interface.h>
+# define MUSCLE_VERIF_BB_UNPOISON() do {if ((_buffer)&&(_numAllocatedBytes <= (1U<<20))) ASAN_UNPOISON_MEMORY_REGION(_buffer, _numAllocatedBytes);} while(0)
+# define MUSCLE_VERIF_BB_REPOISON() do {if ((_buffer)&&(_numValidBytes<_numAllocatedBytes)&&(_numAllocatedBytes <= (1U<<20))) ASAN_POISON_MEMORY_REGION(_buffer+_numValidBytes, _numAllocatedBytes-_numValidBytes);} while(0)
+#else
+# define MUSCLE_VERIF_BB_UNPOISON() do {} while(0)
+# define MUSCLE_VERIF_BB_REPOISON() do {} while(0)
+#endif
+
 namespace muscle {
 
 void ByteBuffer :: AdoptBuffer(uint32 numBytes, uint8 * optBuffer)
@@ -43,6 +52,7 @@ status_t ByteBuffer :: SetNumBytes(uint32 newNumBytes, bool retainData)
 {
    TCHECKPOINT;
 
+   MUSCLE_VERIF_BB_UNPOISON();
    if (newNumBytes > _numAllocatedBytes)
    {
       IMemoryAllocationStrategy * as = GetMemoryAllocationStrategy();
@@ -67,6 +77,7 @@ status_t ByteBuffer :: SetNumBytes(uint32 newNumBytes, bool retainData)
       }
    }
    else _numValidBytes = newNumBytes;  // truncating our array is easy!
+   MUSCLE_VERIF_BB_REPOISON();
 
    return B_NO_ERROR;
 }
@@ -105,6 +116,8 @@ status_t ByteBuffer :: SetNumBytesWithExtraSpace(uint32 newNumValidBytes, bool a
 
    MRETURN_ON_ERROR(SetNumBytes(doAlloc ? muscleMax(newNumValidBytes*mult, (uint32)128) : newNumValidBytes, true));
    _numValidBytes = newNumValidBytes;
+   MUSCLE_VERIF_BB_UNPOISON();
+   MUSCLE_VERIF_BB_REPOISON();
    return B_NO_ERROR;
 }
 
@@ -114,6 +127,7 @@ status_t ByteBuffer :: FreeExtraBytes()
 
    if (_numValidBytes < _numAllocatedBytes)
    {
+      MUSCLE_VERIF_BB_UNPOISON();
       IMemoryAllocationStrategy * as = GetMemoryAllocationStrategy();
       uint8 * newBuf = (uint8 *) (as ? as->Realloc(_buffer, _numValidBytes, _numAllocatedBytes, true) : muscleRealloc(_buffer, _numValidBytes));
       if ((_numValidBytes == 0)||(newBuf))
@@ -139,6 +153,7 @@ void ByteBuffer :: Clear(bool releaseBuffers)
 {
    if (releaseBuffers)
    {
+      MUSCLE_VERIF_BB_UNPOISON();
       IMemoryAllocationStrategy * as = GetMemoryAllocationStrategy();
       if (as) as->Free(_buffer, _numAllocatedBytes); else muscleFree(_buffer);
       _buffer = NULL;
